@@ -235,7 +235,7 @@ func runC18(c *Ctx) {
 	for _, o := range ix.Obls {
 		if o.Fn.Name() == "UpdateProperties" && funcPkgPath(o.Fn) == pkgPath("texttable") {
 			n++
-			r.Check("R18.3", FuncName(o.Fn), o.Kind+" "+o.What, o.In.Pos(), o.OK, o.How)
+			r.CheckHow("R18.3", FuncName(o.Fn), o.Kind+" "+o.What, o.In.Pos(), o.OK, o.How, o.How)
 		}
 	}
 	r.Floor("R18.3", "index obligations in the measuring callback", n, 1)
